@@ -278,8 +278,15 @@ func runC11(r *ev.Run) {
 	perKind := r.Pick(10, 150)
 	var idCounter atomic.Uint32
 	idCounter.Store(1 << 26)
+	deadlocks := map[string]int{}
 	r.Cases("history", perKind*len(concKinds), func(ci int, rng *rand.Rand) {
 		kind := concKinds[ci%len(concKinds)]
+		if deadlocks[kind] >= 2 {
+			// two proven deadlocks of this kind are reported already; every further one costs the full watchdog
+			r.Count("histories-skipped-after-two-deadlocks:"+kind, 1)
+			r.Inconclusive("history skipped after two deadlocks: " + kind)
+			return
+		}
 		sut, err := newConcSUT(kind, rng)
 		if err != nil {
 			r.ViolationAt("history", ci, "conc.setup", kind+": "+err.Error(), nil)
@@ -444,6 +451,7 @@ func runC11(r *ev.Run) {
 			buf := make([]byte, 1<<20)
 			dump := string(buf[:runtime.Stack(buf, true)])
 			if goroutineDumpShowsCometDeadlock(dump) {
+				deadlocks[kind]++
 				r.ViolationAt("history", ci, "conc."+kind+".deadlock", "workload did not finish within 120 s and every goroutine inside comet is parked on a sync primitive", map[string]any{"goroutine_dump": trimTo(dump, 12000)})
 			} else {
 				r.Inconclusive("watchdog fired without a provable wait cycle: " + kind)
@@ -620,7 +628,13 @@ func c11AutoIDs(r *ev.Run) {
 // c11StoreRaceOnly: everything at once on a store, including compaction triggers, eviction and a final Close racing
 // with the tail of the workload. Oracle: race detector, panics, hangs, errors from Add on an open store.
 func c11StoreRaceOnly(r *ev.Run) {
+	storeDeadlocks := 0
 	r.Cases("store-race", r.Pick(8, 100), func(ci int, rng *rand.Rand) {
+		if storeDeadlocks >= 2 {
+			r.Count("store-race-cases-skipped-after-two-deadlocks", 1)
+			r.Inconclusive("store-race case skipped after two deadlocks")
+			return
+		}
 		dir, err := os.MkdirTemp("", "verif-c11s-*")
 		if err != nil {
 			panic(err)
@@ -703,6 +717,7 @@ func c11StoreRaceOnly(r *ev.Run) {
 			buf := make([]byte, 1<<20)
 			dump := string(buf[:runtime.Stack(buf, true)])
 			if goroutineDumpShowsCometDeadlock(dump) {
+				storeDeadlocks++
 				r.ViolationAt("store-race", ci, "conc.store.deadlock", "store workload with Close did not finish within 120 s; every goroutine inside comet is parked", map[string]any{"goroutine_dump": trimTo(dump, 12000)})
 			} else {
 				r.Inconclusive("store watchdog fired without a provable wait cycle")
@@ -727,7 +742,7 @@ func c11TargetedStore(r *ev.Run) {
 	ctl.install()
 	defer ctl.uninstall()
 	own := &ownership{owners: map[any]string{}, tmpl: map[any]bool{}}
-	points := []string{"memq.add.picked", "memtable.add.prelock", "flush.registered", "flush.dropped", "search.listed-memtables", "search.listed-segments", "crash:flush.added", "memq.list", "segmgr.list"}
+	points := []string{"memq.add.picked", "memtable.add.prelock", "memtable.add.locked", "memtable.add.locked@roomy", "memtable.add.prelock@roomy", "flush.registered", "flush.dropped", "search.listed-memtables", "search.listed-segments", "crash:flush.added", "memq.list", "segmgr.list"}
 	actions := []string{"add", "add-forcing-rotation", "search-all", "flush", "remove-newest"}
 	reps := r.Pick(1, 5)
 	total := reps * len(points) * len(actions)
@@ -743,12 +758,15 @@ func c11TargetedStore(r *ev.Run) {
 		}
 		defer os.RemoveAll(dir)
 		p := storeParams{VecKind: "flat", Text: true, Meta: true, Dim: 2, Metric: comet.Euclidean, CompactionThreshold: 1000, MemtableSizeLimit: 900, FlushThreshold: 1 << 40}
+		point := []string{"memq.add.picked", "memtable.add.prelock", "memtable.add.locked"}[ci%3]
+		if point == "memtable.add.locked" {
+			p.MemtableSizeLimit = 1 << 20 // A's write must go to the memtable that already holds the earlier documents
+		}
 		s, err := p.open(dir)
 		if err != nil {
 			r.ViolationAt("targeted-add-vs-rotation-and-flush", ci, "conc.store.open-error", err.Error(), nil)
 			return
 		}
-		point := []string{"memq.add.picked", "memtable.add.prelock"}[ci%2]
 		acked := map[uint32]bool{}
 		var mu sync.Mutex
 		base := uint32(1<<28 + ci<<8)
@@ -756,25 +774,61 @@ func c11TargetedStore(r *ev.Run) {
 		fail := func(sig, what string) {
 			r.ViolationAt("targeted-add-vs-rotation-and-flush", ci, sig, fmt.Sprintf("point=%s: %s", point, what), map[string]any{"log": log})
 		}
-		ctl.setTarget(point, 1, func(args []any) {
-			// B: fill the memtable (forces rotation), then flush everything
-			for i := 0; i < 6; i++ {
-				d := genStoreDoc(rng, p, base+100+uint32(i), "B")
-				d.Text += fmt.Sprintf(" pad%0200d", i)
+		var lockedDone chan struct{}
+		if point == "memtable.add.locked" {
+			// A is held INSIDE the memtable's write section (after its frozen re-check). The memtable already holds
+			// documents, so a Flush beside it rotates it out: the Flush has to wait for A's write (it cannot finish
+			// while A is held), and A's document must be in what gets flushed.
+			for i := 0; i < 1+rng.IntN(3); i++ {
+				d := genStoreDoc(rng, p, base+50+uint32(i), "pre")
 				if err := s.AddWithID(d.ID, d.Vec, d.Text, d.Meta); err == nil {
-					mu.Lock()
 					acked[d.ID] = true
-					mu.Unlock()
-				} else {
-					fail("conc.store.add-fails-under-concurrency", fmt.Sprintf("B's AddWithID failed: %v", err))
 				}
 			}
-			err := s.Flush()
-			log = append(log, fmt.Sprintf("B: 6 adds + Flush -> %v while A is held at %s", err, point))
-		})
+			ctl.setTarget(point, 1, func(args []any) {
+				var inTime bool
+				inTime, lockedDone = runBeside(func() {
+					err := s.Flush()
+					mu.Lock()
+					log = append(log, fmt.Sprintf("B: Flush -> %v while A is held at %s", err, point))
+					mu.Unlock()
+				}, 150*time.Millisecond)
+				if inTime {
+					r.Count("targeted:flush-finished-while-a-write-was-in-progress", 1)
+				} else {
+					r.Count("targeted:flush-waited-for-the-write-in-progress", 1)
+				}
+			})
+		} else {
+			ctl.setTarget(point, 1, func(args []any) {
+				// B: fill the memtable (forces rotation), then flush everything
+				for i := 0; i < 6; i++ {
+					d := genStoreDoc(rng, p, base+100+uint32(i), "B")
+					d.Text += fmt.Sprintf(" pad%0200d", i)
+					if err := s.AddWithID(d.ID, d.Vec, d.Text, d.Meta); err == nil {
+						mu.Lock()
+						acked[d.ID] = true
+						mu.Unlock()
+					} else {
+						fail("conc.store.add-fails-under-concurrency", fmt.Sprintf("B's AddWithID failed: %v", err))
+					}
+				}
+				err := s.Flush()
+				log = append(log, fmt.Sprintf("B: 6 adds + Flush -> %v while A is held at %s", err, point))
+			})
+		}
 		dA := genStoreDoc(rng, p, base+1, "A")
 		errA := s.AddWithID(dA.ID, dA.Vec, dA.Text, dA.Meta)
 		ctl.clearTarget()
+		if lockedDone != nil {
+			select {
+			case <-lockedDone:
+			case <-time.After(60 * time.Second):
+				fail("conc.store.deadlock-or-hang", "a Flush started while a write was in progress did not return within 60 s after the write completed")
+				s.Close()
+				return
+			}
+		}
 		log = append(log, fmt.Sprintf("A: AddWithID(%d) -> %v", dA.ID, errA))
 		if errA != nil {
 			fail("conc.store.add-fails-under-concurrency", fmt.Sprintf("A's Add failed only because a rotation/flush happened while it was between choosing and writing the memtable: %v", errA))
